@@ -187,14 +187,27 @@ func (r *Runner) checkProperty(spec *PropSpec) int {
 	}
 	var funcs []string
 	usedExtern := map[string]bool{}
+	inlinedSet := map[string]bool{}
+	assumedSet := map[string]bool{}
 	for _, fc := range res.ctxs {
 		funcs = append(funcs, fc.funcShort())
 		for k := range fc.usedContracts {
 			if c := r.w.Contracts[k]; c != nil && c.Trusted {
 				usedExtern[k] = true
 			}
+			if strings.HasPrefix(k, "inlined:") {
+				inlinedSet[shortKey(strings.TrimPrefix(k, "inlined:"))] = true
+			}
+			if strings.HasPrefix(k, "assumed: ") {
+				assumedSet[strings.TrimPrefix(k, "assumed: ")] = true
+			}
 		}
 	}
+	inlined := []string{}
+	for k := range inlinedSet {
+		inlined = append(inlined, k)
+	}
+	sort.Strings(inlined)
 	var trustedClauses []string
 	for _, fc := range res.ctxs {
 		if fc.contract != nil {
@@ -210,6 +223,12 @@ func (r *Runner) checkProperty(spec *PropSpec) int {
 		externs = append(externs, k)
 	}
 	sort.Strings(externs)
+	var assumedFacts []string
+	for k := range assumedSet {
+		assumedFacts = append(assumedFacts, k)
+	}
+	sort.Strings(assumedFacts)
+	trustedClauses = append(trustedClauses, assumedFacts...)
 	kinds := map[string]interface{}{}
 	for k, c := range byKind {
 		kinds[k] = map[string]int{"obligations": c[0], "discharged": c[1]}
@@ -232,7 +251,7 @@ func (r *Runner) checkProperty(spec *PropSpec) int {
 			"trusted_base": trusted, "samples": samples, "explanation": expl,
 			"functions_under_contract": funcs, "by_kind": kinds, "by_backend": bySolver, "solver_ms_total": res.solverMs,
 			"vacuity_covers": covers, "vacuity_covers_sat": coverOK, "known_findings_printed": knownPrinted, "failed": failedNames,
-			"load_ms": r.loadMs, "functions_not_verified": res.skipped,
+			"load_ms": r.loadMs, "functions_not_verified": res.skipped, "functions_executed_in_place": inlined,
 		},
 		Assumptions: append(append(append([]string{}, spec.Assume...), trustedClauses...), externs...),
 	}
